@@ -152,13 +152,15 @@ def reference(lex: dict, inv: dict) -> dict:
     carriers: dict[tuple, list] = {}
     for e, s in senses:
         wf = _lemma_key(e)[0]
-        carriers.setdefault((wf, s['synset']), []).append((e['id'], _lemma_key(e)))
+        carriers.setdefault((wf, s['synset']), []).append((e['id'], _lemma_key(e), id(e)))
     for (wf, synset), cs in carriers.items():
-        if len(cs) < 2:
+        # a redundant *entry* needs a second entry: one entry with two senses in the synset is
+        # W202's business
+        if len({el for _, _, el in cs}) < 2:      # entry elements, whatever their ids
             continue
         # clearly redundant: two entries (distinct ids) with the identical lemma
         by_lemma: dict[tuple, set] = {}
-        for eid, lk in cs:
+        for eid, lk, _el in cs:
             by_lemma.setdefault(lk, set()).add(eid)
         must = any(len(eids) >= 2 for eids in by_lemma.values())
         out['W203'].append(Offence(wf, must, {'synset': synset}))
